@@ -188,3 +188,6 @@ PROPS['C13']['units'] = PROPS['C13']['units'] + [_ch.H13]
 PROPS['C05']['units'] = PROPS['C05']['units'] + list(_s.C05_UNITS)
 # C05: "the command line reports it on stderr, no traceback" for the directory modes too: the per-file barrier of every mode
 PROPS['C05']['units'] = PROPS['C05']['units'] + [cli.CountN, cli.AllPelsN, cli.ListN, cli.PlidN, cli.SrcN, cli.IdN, cli.BmcN]
+# main --json over a directory of any size: which files are converted, where to, and --clean passed through
+PROPS['C11']['units'] = PROPS['C11']['units'] + [cli.MainJsonN]
+PROPS['C12']['units'] = PROPS['C12']['units'] + [cli.MainJsonN]
